@@ -13,6 +13,13 @@ TokenType(b) ==
     [] b = 123 -> 6 [] b = 125 -> 7 [] b = 91 -> 8 [] b = 93 -> 9 [] b = 44 -> 10 [] b = 58 -> 11
     [] OTHER -> 0
 
+\* TokenType.String: the documented names, and a formatted fallback for every other value of the exported type
+TokenName(t) ==
+  CASE t = 0 -> "invalid" [] t = 1 -> "null" [] t = 2 -> "string" [] t = 3 -> "number" [] t = 4 -> "true"
+    [] t = 5 -> "false" [] t = 6 -> "object start" [] t = 7 -> "object end" [] t = 8 -> "array start"
+    [] t = 9 -> "array end" [] t = 10 -> "comma" [] t = 11 -> "colon"
+    [] OTHER -> "unknown type (" \o ToString(t) \o ")"
+
 RECURSIVE AWS(_, _)
 AWS(s, i) == IF i <= Len(s) /\ IsWS(s[i]) THEN AWS(s, i + 1) ELSE i
 AAt(s, i) == IF i <= Len(s) THEN s[i] ELSE -1
